@@ -302,13 +302,23 @@ def check_bigdir(case, ev):
         for i in range(case["nfiles"]):
             p_ = os.path.join(d, "in", "s%d" % (i % 3), "r%02d.cfg" % i)
             os.makedirs(os.path.dirname(p_), exist_ok=True)
-            with open(p_, "w") as fh:
+            with open(p_, "w", encoding="utf-8") as fh:
+                fh.write(" description Z\u00fcrich caf\u00e9 \u00c5re uplink %d\n" % i)
                 for j in range(case["nlines"]):
                     h = core.derive("bigdir", case["tag"], i, j)
                     fh.write(["username u%d password Pw%x\n" % (j, h & 0xFFFFFF), " ip address %d.%d.%d.%d 255.255.255.0\n" % (11 + (h >> 24) % 200, (h >> 16) & 255, (h >> 8) & 255, h & 255), "snmp-server community Comm%x ro\n" % (h & 0xFFFFF), "neighbor 2001:db8:%x::%x remote-as 65001\n" % ((h >> 16) & 0xFFFF, h & 0xFFFF), "enable secret Sec%x\n" % (h & 0xFFFFFF)][j % 5])
         ref = None
         for k in range(case["runs"]):
             out = os.path.join(d, "out%d" % k)
+            if k == 1:
+                # between the runs: another directory, holding a file that cannot be decoded, is anonymized
+                # in the same process (its failure must leave nothing behind that changes later runs)
+                os.makedirs(os.path.join(d, "other", "in"))
+                with open(os.path.join(d, "other", "in", "broken.cfg"), "wb") as fh_:
+                    fh_.write(b"hostname r1\n description caf\xe9 \xff\xfe\n")
+                with open(os.path.join(d, "other", "in", "fine.cfg"), "w", encoding="utf-8") as fh_:
+                    fh_.write("hostname r\u00e9seau\n")
+                guarded(anonymize_files, os.path.join(d, "other", "in"), os.path.join(d, "other", "out"), True, True, salt="other")
             if k and ref is not None:
                 # later runs write over what an earlier, LONGER run left at the same paths (and dump path)
                 for rel_, data_ in ref[0].items():
@@ -324,6 +334,10 @@ def check_bigdir(case, ev):
             for root, _dirs, files in os.walk(out):
                 for f in files:
                     tree[os.path.relpath(os.path.join(root, f), out)] = open(os.path.join(root, f), "rb").read()
+            if k == 0:
+                for rel_, data_ in tree.items():
+                    if "Z\u00fcrich caf\u00e9".encode("utf-8") not in data_:
+                        return Finding("bigdir/non-ascii-text-not-carried-over", "file %s: %r" % (rel_, data_[:80]), case)
             dump = open(os.path.join(d, "dump%d" % k), "rb").read()
             if ref is None:
                 ref = (tree, dump)
@@ -376,7 +390,7 @@ def _text(draw, optss, max_lines=8):
             vals = [draw(st.sampled_from(words)) if draw(st.integers(0, 5)) == 0 and "exact" not in form.text_kw else draw(S.secret_for(form))[1] for _s in range(form.slots)]
             lines.append(S.render(form, draw(st.integers(0, 20)), draw(st.integers(0, 5)), vals)[0])
         elif k == 1:
-            lines.append("set password " + draw(st.one_of(S.sha512_value(), S.j9_value(), S.j9_value(), S.md5_value(), S.type7_value())))
+            lines.append("set password " + draw(st.one_of(S.sha512_value(), S.j9_value(), S.j9_value(), S.md5_value(), S.type7_value(), S.chars(S.CRYPT64, 22, 22).map(lambda h: "$1$$" + h), S.chars(S.CRYPT64, 10, 30).map(lambda h: "$6$$" + h))))
         elif k == 2:
             w = draw(st.sampled_from(words))
             lines.append("hostname %s%s-%s %s" % (draw(st.sampled_from(["", "x"])), w, draw(st.sampled_from(words)), draw(st.sampled_from([w.upper(), "sea seattle sear", "intranet"]))))
